@@ -94,6 +94,19 @@ pub broadcast proof fn lemma_rep_toks_snoc(xs: Seq<TokenStream>, x: TokenStream)
 {
     lemma_rep_toks_push(xs, x, xs.len() as int);
 }
+pub broadcast proof fn lemma_rep_term_toks_push(xs: Seq<TokenStream>, x: TokenStream, term: u64, n: int)
+    requires n <= xs.len()
+    ensures #[trigger] rep_term_toks(xs.push(x), term, n) == rep_term_toks(xs, term, n)
+    decreases n
+{
+    if n > 0 { lemma_rep_term_toks_push(xs, x, term, n - 1); }
+}
+pub broadcast proof fn lemma_rep_term_toks_snoc(xs: Seq<TokenStream>, x: TokenStream, term: u64, m: int)
+    requires m == xs.len() + 1
+    ensures #[trigger] rep_term_toks(xs.push(x), term, m) == rep_term_toks(xs, term, m - 1).add(x@).add(Seq::<Tok>::empty().push(Tok::T(term)))
+{
+    lemma_rep_term_toks_push(xs, x, term, xs.len() as int);
+}
 #[verifier::external_body]
 pub fn vx_ts_rep(t: &mut TokenStream, xs: &Vec<TokenStream>)
     ensures final(t)@ == old(t)@.add(rep_toks(xs@, xs@.len() as int)) { unimplemented!() }
